@@ -11,6 +11,7 @@ import (
 	"encoding/json"
 	"errors"
 	"fmt"
+	"github.com/metal-toolbox/audito-maldito/internal/verif/mc"
 	"strconv"
 	"strings"
 	"testing"
@@ -18,7 +19,6 @@ import (
 	"time"
 
 	"github.com/metal-toolbox/auditevent"
-	"go.uber.org/zap"
 
 	"github.com/metal-toolbox/audito-maldito/internal/common"
 	"github.com/metal-toolbox/audito-maldito/internal/health"
@@ -27,8 +27,8 @@ import (
 )
 
 func init() {
-	auditd.SetLogger(zap.NewNop().Sugar())
-	sshd.SetLogger(zap.NewNop().Sugar())
+	auditd.SetLogger(mc.DebugLogger())
+	sshd.SetLogger(mc.DebugLogger())
 }
 
 var errInjected = errors.New("injected write failure")
